@@ -69,13 +69,21 @@ Proof.
   inversion H; subst. cbn [fst]. destruct (erase_range_inv lt l a b Hs H1 H2) as [H3 H4]. split; [exact H3|eapply Nat.le_trans; eassumption].
 Qed.
 
+(* a range insert reports nothing, or that a key did not fit *)
+Lemma s_insert_range_snd k cap ks : forall l,
+  snd (s_insert_range lt k cap ks l) = SUnit \/ snd (s_insert_range lt k cap ks l) = SFull.
+Proof.
+  induction ks as [|x t IH]; intros l; cbn [s_insert_range]; [left; reflexivity|].
+  destruct (s_insert_bounded lt cap x l) as [l' o]. destruct (fatal k o); [right; reflexivity|apply IH].
+Qed.
+
 (** * one step, inside the domain of the specification *)
 Lemma step_refines k cap s o s2 so : inv cap s -> s_step lt k cap s o = Some (s2, so) ->
   step lt k cap s o = Ok (s2, present k so) /\ inv cap s2.
 Proof.
   intros Hi Hs. pose proof Hi as [[Hc Hcl] [Ho Hol]].
   unfold s_step in Hs. destruct (has_member k o) eqn:Hm; cbn [negb] in Hs; [|discriminate].
-  destruct o as [x|x|h x|ks|ks|ks|x|p|a b|pred| | | |ks].
+  destruct o as [x|x|h x|ks|ks|ks|x|p|a b|pred| | | |ks|ks| ].
   - (* Insert *)
     inversion Hs; subst; clear Hs. destruct (s_insert_bounded_inv cap x (cur s) Hc Hcl) as [H1 H2].
     split; [|apply inv_upd; assumption].
@@ -152,6 +160,18 @@ Proof.
     split; [|apply inv_upd; assumption].
     cbn [step fs_step]. unfold with_container. replace (cap <? length ks) with false by (symmetry; apply Nat.ltb_ge; exact Hk).
     reflexivity.
+  - (* AssignIter *)
+    destruct (s_insert_range_inv k cap ks [] (is_set_nil lt) (Nat.le_0_l _)) as [H1 H2].
+    destruct (fatal k (snd (s_insert_range lt k cap ks []))) eqn:Ef; [discriminate|].
+    inversion Hs; subst; clear Hs.
+    split; [|apply inv_upd; assumption].
+    destruct k; cbn [step ss_step fs_step].
+    + destruct (ss_insert_range_ok cap ks [] (is_set_nil lt) (Nat.le_0_l _)) as [E1 _]. rewrite E1. reflexivity.
+    + rewrite fs_insert_range_ok by (try apply is_set_nil; cbn [length]; lia).
+      cbn [rbind fst snd]. rewrite present_contract, Ef.
+      destruct (s_insert_range_snd FlatSet cap ks []) as [E|E]; rewrite E in *; [reflexivity|discriminate Ef].
+  - (* CopyFrom *)
+    inversion Hs; subst; clear Hs. split; [destruct k; reflexivity|]. apply inv_upd; assumption.
 Qed.
 
 (** * one step, anywhere: the model never misbehaves, keeps the invariant, and outside the
@@ -166,7 +186,7 @@ Proof.
   - destruct (has_member k o) eqn:Hm.
     + (* a member called outside its domain *)
       unfold s_step in Es. rewrite Hm in Es. cbn [negb] in Es.
-      destruct o as [x|x|h x|ks|ks|ks|x|p|a b|pred| | | |ks]; try discriminate.
+      destruct o as [x|x|h x|ks|ks|ks|x|p|a b|pred| | | |ks|ks| ]; try discriminate.
       * (* Assign: the range does not fit *)
         destruct (Nat.leb_spec (length ks) cap) as [Hk|Hk]; [discriminate|].
         assert (Hlt : cap <? length ks = true) by (apply Nat.ltb_lt; exact Hk).
@@ -194,6 +214,12 @@ Proof.
         exists s, OContract. split; [|split; [exact Hi|auto]].
         cbn [step fs_step]. unfold with_container. replace (cap <? length ks) with true by (symmetry; apply Nat.ltb_lt; exact Hk).
         reflexivity.
+      * (* AssignIter: a key did not fit and the container treats that as fatal *)
+        destruct (fatal k (snd (s_insert_range lt k cap ks []))) eqn:Ef; [|discriminate].
+        destruct k; [destruct (snd (s_insert_range lt StaticSet cap ks [])); discriminate Ef|].
+        exists s, OContract. split; [|split; [exact Hi|auto]].
+        cbn [step fs_step]. rewrite fs_insert_range_ok by (try apply is_set_nil; cbn [length]; lia).
+        cbn [rbind fst snd]. rewrite present_contract, Ef. reflexivity.
     + (* static_set has no such member: the model leaves the set alone *)
       destruct k; [|destruct o; discriminate].
       exists s, OUnit. split; [|split; [exact Hi|discriminate]].
